@@ -152,6 +152,7 @@ ASMJIT_FAVOR_SIZE Error BaseEmitHelper::emit_args_assignment(const FuncFrame& fr
 
       ASMJIT_ASSERT(cur.is_reg() || cur.is_stack());
       Reg reg;
+      bool int_to_int = TypeUtils::is_int(out.type_id()) && TypeUtils::is_int(cur.type_id());
 
       BaseMem dst_stack_ptr = base_stack_ptr.clone_adjusted(out.stack_offset());
       BaseMem src_stack_ptr = base_arg_ptr.clone_adjusted(cur.stack_offset());
@@ -172,6 +173,11 @@ ASMJIT_FAVOR_SIZE Error BaseEmitHelper::emit_args_assignment(const FuncFrame& fr
 
         reg.set_signature_and_id(RegUtils::signature_of(cur.reg_type()), reg_id);
         wd.unassign(var_id, reg_id);
+
+        // The register is released by this move, so a narrower integer can be extended in place to the destination type.
+        if (int_to_int && TypeUtils::size_of(out.type_id()) > TypeUtils::size_of(cur.type_id())) {
+          ASMJIT_PROPAGATE(emit_arg_move(reg, out.type_id(), reg, cur.type_id()));
+        }
       }
       else {
         // Stack to reg move - tricky since we move stack to stack we can decide which register to use. In general
@@ -198,8 +204,11 @@ ASMJIT_FAVOR_SIZE Error BaseEmitHelper::emit_args_assignment(const FuncFrame& fr
         work_data[RegGroup::kGp].unassign(var_id, cur.reg_id());
       }
 
-      // Register to stack move.
-      ASMJIT_PROPAGATE(emit_reg_move(dst_stack_ptr, reg, cur.type_id()));
+      // Register to stack move - integers are stored as the destination type (`reg` holds the converted value).
+      if (int_to_int) {
+        reg.set_signature(RegUtils::signature_of(TypeUtils::size_of(out.type_id()) <= 4 ? RegType::kGp32 : RegType::kGp64));
+      }
+      ASMJIT_PROPAGATE(emit_reg_move(dst_stack_ptr, reg, int_to_int ? out.type_id() : cur.type_id()));
       var.mark_done();
     }
   }
